@@ -36,7 +36,8 @@ theorem bCond_agrees (w : BitVec 32) (addr : Nat) (r : BTR) (hc : fld w 31 25 = 
   have h6 : ¬ (fld w 29 27 = 0b111 ∧ (!bit w 25) = true) := by intro h; unfold A64.fld at h hc; omega
   have b1 : fld w 30 26 ≠ 0b00101 := by intro h; unfold A64.fld at h hc; omega
   have h36 : fld w 28 23 ≠ 0b100100 := by intro h; unfold A64.fld at h hc; omega
-  rw [lift_branches_of w addr hnop h1 h3 h4 h5 h6 h36] at h
+  have h27 : ¬ (fld w 27 27 = 1 ∧ fld w 25 25 = 0) := by intro h; unfold A64.fld at h hc; omega
+  rw [lift_branches_of w addr hnop h1 h3 h4 h5 h6 h36 h27] at h
   unfold branches at h
   simp only [b1, hc, ↓reduceIte] at h
   split at h
